@@ -155,7 +155,7 @@ def check_case(ctx, case):
     traces, base_lab = case['traces'], case['labels']
     k = case['k']
     base_parts = list(range(k))
-    var_parts = [int(v) for v in case['var_partitions']]
+    var_parts = [int(v) for v in case['var_partitions']] if not case.get('var_range') else list(range(int(case['var_range'])))
     vtraces, var_lab = case.get('var_traces', traces), case['var_labels']
     labels_ = ['kind:' + kind, 'relation:' + rel, 'prec:' + precision, 'k:%s' % ('<=9' if len(var_parts) <= 9 else '>9')]
     undeclared = bool((~np.isin(base_lab, base_parts)).any())
@@ -168,14 +168,16 @@ def check_case(ctx, case):
         labels_.append('unsorted_list')
     # position in the variant list of the class that is base class i
     pos = None
-    if rel in ('rename', 'permute'):
+    if rel in ('rename', 'permute', 'huge'):
         ren = [int(v) for v in case['rename']]
         pos = [var_parts.index(ren[i]) for i in range(k)]
     if True:
         if kind in PART_KINDS:
             _, rb = _run_partitioned(case, kind, base_parts, traces, base_lab, case['kernels'])
             _, rv = _run_partitioned(case, kind, var_parts, vtraces, var_lab, case['kernels2'])
-            val, tol, defined = stats.partitioned(kind, vtraces, var_lab.reshape(var_lab.shape[0], -1), var_parts, eps)
+            # (for the tens of thousands of declared classes of the 'huge' relation only the populated ones enter the by-value definition)
+            def_parts = var_parts if rel != 'huge' else sorted(set(int(v) for v in np.unique(var_lab)) & set(var_parts))
+            val, tol, defined = stats.partitioned(kind, vtraces, var_lab.reshape(var_lab.shape[0], -1), def_parts, eps)
             factor = 1.0 if stats.is_integral(traces) else float(traces.shape[0])
             tol = tol * factor
             _close(case, '%s under %s' % (kind, rel), rb, rv, 2 * tol + 1e-300)
@@ -192,7 +194,7 @@ def check_case(ctx, case):
             ob, rb = _run_mia(case, base_parts, traces, base_lab)
             ov, rv = _run_mia(case, var_parts, vtraces, var_lab)
             _close(case, 'mia under %s' % rel, rb, rv, 1e-9)
-            if rel in ('drop', 'replace', 'rename', 'permute'):
+            if rel in ('drop', 'replace', 'rename', 'permute', 'huge'):
                 hb = np.asarray(ob.accumulators)
                 hv = np.asarray(ov.accumulators)
                 if pos is not None:
@@ -317,6 +319,8 @@ def cases(draw, kind, precision, tdtypes, pool_seed=0):
     # class lists come from a small per-unit pool (3 per k): the lookup function of a list is compiled once per process
     gp = gen.rng(pool_seed, 'class-list-pool', k, draw(st.integers(0, 2)))
     rels = ['rename', 'rename', 'permute', 'permute', 'drop', 'replace'] + (['superset', 'superset'] if kind in PART_KINDS + ('mia',) else [])
+    if kind in PART_KINDS + ('mia',) and draw(st.integers(0, 19)) == 0:
+        rels = ['huge']
     rel = draw(st.sampled_from(rels))
     W = 1 if single_word else draw(st.integers(1, 3))
     if rel == 'drop':
@@ -380,6 +384,16 @@ def cases(draw, kind, precision, tdtypes, pool_seed=0):
         table.update({u: und_ren[j] for j, u in enumerate(und_vals)})
         var_lab = np.vectorize(lambda v: table[int(v)], otypes=['int64'])(lab)
         case['rename'] = ren
+    elif rel == 'huge':
+        # a class list of tens of thousands of values (every value of a 16-bit intermediate), the populated classes near its end
+        P = int(gp.choice([40000, 65536]))
+        ren = [P - 1 - 37 * i for i in range(k)]
+        table = {i: ren[i] for i in range(k)}
+        table.update({u: P + 3 + j for j, u in enumerate(und_vals)})
+        var_parts = []
+        case['var_range'] = P
+        var_lab = np.vectorize(lambda v: table[int(v)], otypes=['int64'])(lab)
+        case['rename'] = ren
     elif rel == 'permute':
         # the same classes listed in another order: a transposition, an interior transposition, the reversed or a random order
         style = int(gp.integers(4))
@@ -416,7 +430,7 @@ def cases(draw, kind, precision, tdtypes, pool_seed=0):
         var_parts = list(range(k))
         repl = {u: int(k + n_und + 1 + j * 7) for j, u in enumerate(und_vals)}
         var_lab = np.vectorize(lambda v: repl.get(int(v), int(v)), otypes=['int64'])(lab)
-    mx = int(max(var_lab.max(), lab.max(), max(var_parts)))
+    mx = int(max(var_lab.max(), lab.max(), max(var_parts) if var_parts else 0))
     ddt = draw(st.sampled_from([d for d in gen.CLASS_DTYPES if mx <= np.iinfo(d).max]))
     if np.dtype(ddt).kind == 'i' and mx < 2 ** 16 and rel in ('rename', 'permute', 'superset', 'replace') and not is_attack and draw(st.integers(0, 2)) == 0:
         # negative values in signed data are foreign values too (same positions in base and variant)
